@@ -26,3 +26,10 @@ from . import gen_spark
 def _spark(repo):
     files, info = gen_spark.generate(repo)
     return files, {k: v for k, v in info.items() if k in ("translated", "hand")}
+from . import gen_pandas
+
+
+@register_gen("pandas")
+def _pandas(repo):
+    files, info = gen_pandas.generate(repo)
+    return files, {k: v for k, v in info.items() if k in ("translated", "hand")}
